@@ -55,6 +55,10 @@ def run(check, prog):
     channels(check, prog)
     tables(check, prog)
     illumination_preparation(check, prog)
+    # per-channel scatterer properties given as labelled arrays pass through the
+    # parameter map on every calculation: each value must stay with its label
+    from . import c11
+    c11.xarray_map(check, prog)
     canon = Canon()
     c01.f3_vectors(check, prog, canon)
     # the field of a member must not depend on which members were computed
